@@ -141,6 +141,13 @@ class OpWorld(World):
     def schedule_timer(self, it, method, args, kwargs):
         """scheduler.schedule / schedule_relative / schedule_absolute of the real code"""
         if self.now_term is None:
+            if method == "schedule" and args:
+                # an untimed contract (take(0) is empty()): the subscribe-time scheduler runs an action scheduled for "now" once -
+                # here at once, which is what the current-thread scheduler does for a subscription made outside a running action
+                a0 = list(args)
+                it.call(a0[0], [self.harness.sub_sched if self.harness is not None and getattr(self.harness, "sub_sched", None) is not None else None,
+                                kwargs.get("state", a0[1] if len(a0) > 1 else None)], {})
+                return Opaque("disposable", "scheduled-now")
             raise Unsupported("scheduling outside a timed contract")
         a = list(args)
         if method == "schedule":
@@ -552,6 +559,13 @@ class OpWorld(World):
             hs = self.norm_handlers(it, args, kwargs)
             d = Opaque("disposable", f"sub:{o.name}:{len(self.subs)}")
             self.subs.append((o, hs, kwargs, d))
+            if self.harness is not None and getattr(self.harness, "sub_sched", None) is not None and getattr(self, "side", "impl") == "impl":
+                given = kwargs.get("scheduler", args[3] if len(args) > 3 else None)
+                own = self.harness.env.vars.get("scheduler") if getattr(self.harness, "env", None) is not None else None
+                # the subscribe-time scheduler, or the operator's own (`_scheduler = scheduler or scheduler_ or default` is what the
+                # timed operators hand on) - never none at all
+                if given is not self.harness.sub_sched and not (own is not None and given is own):
+                    self.harness.sched_misses.append(f"{o.name} (scheduler={given})")
             self.events.append(("subscribe", o.name, d))
             if ("term" not in o.attrs and self.harness is not None and getattr(self.harness, "in_handler", False)
                     and o.name in self.harness.c.sources
@@ -1327,9 +1341,17 @@ class OpHarness:
             self.record(ctx, oid + f"/emission#{k}/inv-holds-when-emitting", t, kind="inv",
                         detail="the subscriber may re-enter the operator synchronously from inside on_next")
 
+    def scheduler_handed_on(self, ctx, oid):
+        misses, self.sched_misses = getattr(self, "sched_misses", []), []
+        if getattr(self, "sub_sched", None) is None:
+            return
+        self.record(ctx, oid + "/hands-the-subscribe-time-scheduler-on-to-every-source-it-subscribes", not misses, kind="frame",
+                    detail=f"subscribed without `scheduler=<the scheduler this subscription was made with>`: {misses}")
+
     def compare_subscriptions(self, it, ctx, oid, n_before):
         """the inner sources the real code subscribed to during this step are exactly those the spec subscribes"""
         w = self.w
+        self.scheduler_handed_on(ctx, oid)
         if self.share_objs and getattr(self, "disp", None) is not None:
             # every window / group handed downstream shares THE ref-counted disposable this subscription returned
             ok_share = all(x is self.disp and isinstance(x, Obj) and x.cls.name == "RefCountDisposable" for x in self.share_objs)
@@ -1869,13 +1891,18 @@ class OpHarness:
                 e = sub.env.lookup_env(pn)
                 if e is not None and e.fn is not None:
                     params_before[pn] = e.vars.get(pn)
+        # the scheduler the subscriber subscribes with (distinct from a scheduler given to the operator): it has to be handed on
+        # to every source the operator subscribes - a mapper's `timer(d)` without a scheduler of its own runs on it
+        self.sub_sched = Opaque("scheduler", "subscribe_scheduler")
+        self.sched_misses = []
         try:
-            disp = it.call(sub, [observer, env.vars["scheduler"]], {})
+            disp = it.call(sub, [observer, self.sub_sched], {})
         except PyExc as e:
             self.fail(ctx, f"{uid}/subscribe/no-exception", f"subscribe raised {e.value!r}")
             return None
         finally:
             self.phase = "handlers"
+        self.scheduler_handed_on(ctx, f"{uid}/subscribe")
         # the contract describes ONE subscription in terms of the operator's parameters: a subscription must leave them as they
         # were (a later subscription starts from the same operator: C04 / C44)
         if isinstance(sub, Closure) and sub.env is not None:
